@@ -959,8 +959,18 @@ def rule_extnames(ctx):
     yield from common.rule_extnames(ctx, "C14.EXTNAMES", C14_FILES)
 
 
+def rule_formatsafe(ctx):
+    yield from common.rule_formatsafe(ctx, "C14.FORMATSAFE", C14_FILES)
+
+
+def rule_nonetruth(ctx):
+    yield from common.rule_nonetruth(ctx, "C14.NONETRUTH", C14_FILES)
+
+
 RULES = [
     ("C14.EXTNAMES", 100, rule_extnames),
+    ("C14.FORMATSAFE", 15, rule_formatsafe),
+    ("C14.NONETRUTH", 10, rule_nonetruth),
     ("C14.BEATGUARD", 6, rule_beatguard),
     ("C14.GRAMMAR", 3, common.shared("c10", "rule_grammar", "C14.GRAMMAR")),
     ("C14.NANRANGE", 3, rule_nanrange),
